@@ -94,6 +94,8 @@ package main
 //@ func parseGetSignaturesForAddressParams
 //@   ensures result1 == nil ==> result0 != nil
 //@   ensures result1 == nil ==> 0 < result0.Limit && result0.Limit <= 1000
+//@   # C07 (window bounds): `before` and `until` are two separate values; parsing one cannot overwrite the other
+//@   ensures result1 == nil && result0.Before != nil && result0.Until != nil ==> result0.Before != result0.Until
 //@   noframe
 
 // ---- Epoch read path: wrappers around the index readers, the CAR reader, the caches and the ipld decoders. ----
@@ -169,6 +171,7 @@ package main
 //@   # C03 (K1): the wanted CID is handed to the section readers unchanged
 //@   fncall readNodeFromReaderAtWithOffsetAndSize requires arg1 == wantedCid
 //@   fncall readNodeWithKnownSize requires arg1 == wantedCid
+//@   fncall parseNodeFromSection requires arg1 == wantedCid
 //@   noframe
 
 //@ func (*Epoch) ReadAtFromCar
@@ -193,6 +196,19 @@ package main
 
 //@ func (*Epoch) prefetchSubgraph
 //@   requires validEpoch(s)
+//@   noframe
+
+// ---- plain HTTP API (GET /api/v1/slot-to-cid/{slot}, /api/v1/sig-to-cid/{sig}) ----
+// C08 (any method, any path): no slice expression of the path can go out of range. Assumed at the fasthttp boundary:
+// RequestCtx.Path() returns the same bytes every time it is asked during one request (reqPath), and the status / body setters
+// write nothing the handler reads.
+//@ spec func reqPath(c *fasthttp.RequestCtx) []byte
+
+//@ func (*MultiEpoch) apiHandler
+//@   requires reqCtx != nil
+//@   requires held(multi.mu) == 0 && validEpochSet(multi) && multi.options != nil
+//@   fncall reqCtx.Path ensures result == reqPath(reqCtx)
+//@   fncall context.TODO ensures result != nil
 //@   noframe
 
 // ---- JSON-RPC handlers ----
@@ -406,6 +422,9 @@ package main
 
 //@ func (*JobGroup) RunWithConcurrency
 //@   requires ctx != nil
+//@   # C18 (a hit whenever one exists / the complete list of errors, for ANY concurrency limit): the group is FirstSuccess over
+//@   # ALL of its jobs with the given limit (the limit only bounds how many run at a time, never which jobs run)
+//@   fncall FirstSuccess requires arg1 == concurrency && len(arg2) == len(*r) && ref(arg2) == ref(*r)
 //@   noframe
 
 // ---- gRPC side ----
